@@ -134,8 +134,28 @@ def len_clause(node, name):
     return None
 
 
+PROJECT_CLASSES: set[str] = set()    # classes defined in the module being translated (set by extract_class)
+
+
+def is_not_project_instance(node, name) -> bool:
+    """`not isinstance(x, C)` with C a class defined in the same module (WavelengthHandling ...): no value of the
+    modelled domain (None, numbers, NaN, +-inf, sequences) is an instance of it, so the conjunct is True on the domain"""
+    if isinstance(node, ast.UnaryOp) and isinstance(node.op, ast.Not):
+        c = node.operand
+        return (isinstance(c, ast.Call) and isinstance(c.func, ast.Name) and c.func.id == "isinstance"
+                and len(c.args) == 2 and isinstance(c.args[0], ast.Name) and c.args[0].id == name
+                and isinstance(c.args[1], ast.Name) and c.args[1].id in PROJECT_CLASSES)
+    return False
+
+
 def presence_kind(node, name):
-    """x is not None -> PNotNone ; x -> PTruthy ; isinstance(x, int | float) -> PIsNumber ; else None"""
+    """x is not None -> PNotNone ; x -> PTruthy ; isinstance(x, int | float) -> PIsNumber ; else None
+    (`<presence> and not isinstance(x, <class of this module>)` counts as <presence>)"""
+    if isinstance(node, ast.BoolOp) and isinstance(node.op, ast.And):
+        rest = [v for v in node.values if not is_not_project_instance(v, name)]
+        if len(rest) == 1 and len(rest) < len(node.values):
+            return presence_kind(rest[0], name)
+        return None
     if (isinstance(node, ast.Compare) and len(node.ops) == 1 and isinstance(node.ops[0], ast.IsNot)
             and isinstance(node.left, ast.Name) and node.left.id == name
             and isinstance(node.comparators[0], ast.Constant) and node.comparators[0].value is None):
@@ -158,6 +178,18 @@ def raise_condition(node, name):
     if isinstance(node, ast.UnaryOp) and isinstance(node.op, ast.Not) and isinstance(node.operand, ast.Compare):
         at = chain_atoms(node.operand, name)
         return ("RaiseUnlessAll", at) if at else None
+    if (isinstance(node, ast.UnaryOp) and isinstance(node.op, ast.Not) and isinstance(node.operand, ast.BoolOp)
+            and isinstance(node.operand.op, ast.And)):
+        # not (np.min(x) >= lo and np.max(x) <= hi)
+        ats = []
+        for v in node.operand.values:
+            if not isinstance(v, ast.Compare):
+                return None
+            at = chain_atoms(v, name)
+            if not at:
+                return None
+            ats += at
+        return ("RaiseUnlessAll", ats)
     if isinstance(node, ast.Compare) and len(node.ops) == 1:
         at = chain_atoms(node, name)
         return ("RaiseIfAny", at) if at else None
@@ -236,6 +268,7 @@ def handle_if(st: ast.If, names, acc, ctx):
             fail(st, "unsupported range check")
         if not only_raises(st.body) or st.orelse:
             fail(st, "a range check must be `if ...: raise ...` without else")
+        pres = [q for q in pres if not (len(pres) > 1 and is_not_project_instance(q, n))]
         if len(pres) > 1:
             fail(st, "more than one precondition")
         if pres:
@@ -323,6 +356,8 @@ def class_node(tree, name) -> ast.ClassDef:
 def extract_class(repo: Path, rel: str, cname: str):
     tree = parse(repo, rel)
     cn = class_node(tree, cname)
+    PROJECT_CLASSES.clear()
+    PROJECT_CLASSES.update(n.name for n in tree.body if isinstance(n, ast.ClassDef))
     init = find_func(tree, "__init__", cname)
     if init.args.vararg or init.args.kwarg or init.args.posonlyargs:
         fail(init, "constructor signature")
@@ -699,7 +734,7 @@ def translate(repo: Path) -> str:
     return out
 
 
-# the text for the unchanged tree (kept literal so that it never depends on the tree under test)
+# the text for the repaired tree (fix: commits of round 2; kept literal so that it never depends on the tree under test)
 FALLBACK = r'''(* GENERATED on every run from the current source tree by /verif/translator — do not edit *)
 From Coq Require Import QArith ZArith List String.
 From PyxelV Require Import Model.Config.
@@ -707,11 +742,11 @@ Import ListNotations.
 Open Scope Z_scope.
 Definition src_guards : guard_table := [
   ((CGeometry, "row"%string),
-    (Guard PAlways [RaiseIfAny [Atom OLe (Qmake (0) 1)]] false,
-     Guard PAlways [RaiseIfAny [Atom OLe (Qmake (0) 1)]] false));
+    (Guard PAlways [RaiseUnlessAll [Atom OGt (Qmake (0) 1)]] false,
+     Guard PAlways [RaiseUnlessAll [Atom OGt (Qmake (0) 1)]] false));
   ((CGeometry, "col"%string),
-    (Guard PAlways [RaiseIfAny [Atom OLe (Qmake (0) 1)]] false,
-     Guard PAlways [RaiseIfAny [Atom OLe (Qmake (0) 1)]] false));
+    (Guard PAlways [RaiseUnlessAll [Atom OGt (Qmake (0) 1)]] false,
+     Guard PAlways [RaiseUnlessAll [Atom OGt (Qmake (0) 1)]] false));
   ((CGeometry, "total_thickness"%string),
     (Guard PTruthy [RaiseUnlessAll [Atom OGe (Qmake (0) 1); Atom OLe (Qmake (10000) 1)]] false,
      Guard PAlways [RaiseUnlessAll [Atom OGe (Qmake (0) 1); Atom OLe (Qmake (10000) 1)]] false));
@@ -722,11 +757,11 @@ Definition src_guards : guard_table := [
     (Guard PTruthy [RaiseUnlessAll [Atom OGe (Qmake (0) 1); Atom OLe (Qmake (1000) 1)]] false,
      Guard PAlways [RaiseUnlessAll [Atom OGe (Qmake (0) 1); Atom OLe (Qmake (1000) 1)]] false));
   ((CGeometry, "pixel_scale"%string),
-    (Guard PAlways [] false,
+    (Guard PTruthy [RaiseUnlessAll [Atom OGe (Qmake (0) 1); Atom OLe (Qmake (1000) 1)]] false,
      Guard PAlways [RaiseUnlessAll [Atom OGe (Qmake (0) 1); Atom OLe (Qmake (1000) 1)]] false));
   ((CCharacteristics, "quantum_efficiency"%string),
     (Guard PNotNone [RaiseUnlessAll [Atom OGe (Qmake (0) 1); Atom OLe (Qmake (1) 1)]] false,
-     Guard PAlways [RaiseIfAny [Atom OLt (Qmake (0) 1); Atom OGt (Qmake (1) 1)]] false));
+     Guard PAlways [RaiseUnlessAll [Atom OGe (Qmake (0) 1); Atom OLe (Qmake (1) 1)]] false));
   ((CCharacteristics, "charge_to_volt_conversion"%string),
     (Guard PTruthy [RaiseUnlessAll [Atom OGe (Qmake (0) 1); Atom OLe (Qmake (100) 1)]] false,
      Guard PAlways [RaiseUnlessAll [Atom OGe (Qmake (0) 1); Atom OLe (Qmake (100) 1)]] false));
@@ -738,34 +773,34 @@ Definition src_guards : guard_table := [
      Guard PAlways [RaiseUnlessAll [Atom OGe (Qmake (0) 1); Atom OLe (Qmake (10000000) 1)]] false));
   ((CCharacteristics, "adc_bit_resolution"%string),
     (Guard PNotNone [RaiseUnlessAll [Atom OGe (Qmake (4) 1); Atom OLe (Qmake (64) 1)]] false,
-     Guard PAlways [] false));
+     Guard PAlways [RaiseUnlessAll [Atom OGe (Qmake (4) 1); Atom OLe (Qmake (64) 1)]] false));
   ((CCharacteristics, "adc_voltage_range"%string),
     (Guard PNotNone [RaiseUnlessLen 2] false,
-     Guard PAlways [] false));
+     Guard PAlways [RaiseUnlessLen 2] false));
   ((CEnvironment, "temperature"%string),
-    (Guard PIsNumber [RaiseUnlessAll [Atom OGt (Qmake (0) 1); Atom OLe (Qmake (1000) 1)]] false,
+    (Guard PNotNone [RaiseUnlessAll [Atom OGt (Qmake (0) 1); Atom OLe (Qmake (1000) 1)]] false,
      Guard PAlways [RaiseUnlessAll [Atom OGt (Qmake (0) 1); Atom OLe (Qmake (1000) 1)]] false));
   ((CEnvironment, "wavelength"%string),
-    (Guard PIsNumber [RaiseUnlessAll [Atom OGt (Qmake (0) 1)]] false,
-     Guard PIsNumber [RaiseIfAny [Atom OLe (Qmake (0) 1)]] true));
+    (Guard PNotNone [RaiseUnlessAll [Atom OGt (Qmake (0) 1)]] false,
+     Guard PIsNumber [RaiseUnlessAll [Atom OGt (Qmake (0) 1)]] true));
   ((CAPDCharacteristics, "roic_gain"%string),
     (Guard PAlways [] false,
      read_only));
   ((CAPDCharacteristics, "quantum_efficiency"%string),
     (Guard PTruthy [RaiseUnlessAll [Atom OGe (Qmake (0) 1); Atom OLe (Qmake (1) 1)]] false,
-     Guard PAlways [RaiseIfAny [Atom OLt (Qmake (0) 1); Atom OGt (Qmake (1) 1)]] false));
+     Guard PAlways [RaiseUnlessAll [Atom OGe (Qmake (0) 1); Atom OLe (Qmake (1) 1)]] false));
   ((CAPDCharacteristics, "full_well_capacity"%string),
     (Guard PTruthy [RaiseUnlessAll [Atom OGe (Qmake (0) 1); Atom OLe (Qmake (10000000) 1)]] false,
      Guard PAlways [RaiseUnlessAll [Atom OGe (Qmake (0) 1); Atom OLe (Qmake (10000000) 1)]] false));
   ((CAPDCharacteristics, "adc_bit_resolution"%string),
-    (Guard PTruthy [RaiseUnlessAll [Atom OGe (Qmake (4) 1); Atom OLe (Qmake (64) 1)]] false,
+    (Guard PNotNone [RaiseUnlessAll [Atom OGe (Qmake (4) 1); Atom OLe (Qmake (64) 1)]] false,
      Guard PAlways [RaiseUnlessAll [Atom OGe (Qmake (4) 1); Atom OLe (Qmake (64) 1)]] false));
   ((CAPDCharacteristics, "adc_voltage_range"%string),
-    (Guard PTruthy [RaiseUnlessLen 2] false,
-     Guard PAlways [] false));
+    (Guard PNotNone [RaiseUnlessLen 2] false,
+     Guard PAlways [RaiseUnlessLen 2] false));
   ((CAPDCharacteristics, "avalanche_gain"%string),
     (Guard PNotNone [RaiseUnlessAll [Atom OGe (Qmake (1) 1); Atom OLe (Qmake (1000) 1)]] false,
-     Guard PAlways [RaiseIfAny [Atom OLt (Qmake (1) 1); Atom OGt (Qmake (1000) 1)]] false));
+     Guard PAlways [RaiseUnlessAll [Atom OGe (Qmake (1) 1); Atom OLe (Qmake (1000) 1)]] false));
   ((CAPDCharacteristics, "pixel_reset_voltage"%string),
     (Guard PAlways [] false,
      Guard PAlways [] false));
